@@ -1,6 +1,7 @@
 package main
 
 import (
+	btapb "cloud.google.com/go/bigtable/admin/apiv2/adminpb"
 	"encoding/binary"
 	"fmt"
 	"strings"
@@ -20,7 +21,7 @@ import (
 func init() { register("C06", "exploration", runC06) }
 
 func runC06(run *common.Run) {
-	run.Rule = "Part 'atomic' (sequential, enumerated): for MutateRow, a MutateRows entry, both CheckAndMutateRow branches and ReadModifyWriteRow, every list of length 1-4 whose k-th element is invalid (each invalid kind), on an empty and on a populated row: the request/entry must fail, the whole table must be unchanged, other MutateRows entries applied exactly. Part 'lin' (concurrent): case = one history of 3-6 client goroutines x 6-10 operations (MutateRow writing one unique tag into two columns, MutateRows over both rows, CheckAndMutateRow 'if column==tag_i write tag_j', ReadModifyWriteRow increment and append of unique tags, DeleteFromRow, whole-row reads) on 2 rows, recorded at the gRPC client boundary with a logical clock, with bounded holds at the write RPCs' afterRead/beforeWrite yield points; checked per row with porcupine against a sequential row model plus conservation monitors (sum of acknowledged increments, each appended tag exactly once). Non-trivial = history in which at least two operations on one row overlapped in logical time; distinct by history hash."
+	run.Rule = "Part 'atomic' (sequential, enumerated): for MutateRow, a MutateRows entry, both CheckAndMutateRow branches and ReadModifyWriteRow, every list of length 1-4 whose k-th element is invalid (each invalid kind), on an empty and on a populated row: the request/entry must fail, the whole table must be unchanged, other MutateRows entries applied exactly. Part 'lin' (concurrent): case = one history of 3-6 client goroutines x 6-10 operations (MutateRow writing one unique tag into two columns, MutateRows over both rows, CheckAndMutateRow 'if column==tag_i write tag_j', ReadModifyWriteRow increment and append of unique tags, DeleteFromRow, whole-row reads) on 2 rows (every third history next to a schema-churn client that creates a scratch family, fills it in 250 other rows and in the rows under test, and drops it again, repeatedly), recorded at the gRPC client boundary with a logical clock, with bounded holds at the write RPCs' afterRead/beforeWrite yield points; checked per row with porcupine against a sequential row model plus conservation monitors (sum of acknowledged increments, each appended tag exactly once). Non-trivial = history in which at least two operations on one row overlapped in logical time; distinct by history hash."
 	run.Assumptions = []string{"porcupine v1.3.0 linearizability checker (per-row partitioning)", "sequential row model of ~60 lines", "holds are bounded sleeps inside the hooked points; they only widen interleavings and are never a verdict"}
 	if run.WantSub("atomic") {
 		c06Atomic(run)
@@ -327,6 +328,9 @@ func c06Decode(cells []model.Cell) (c06State, string) {
 			return s, "column " + id + " has more than one version"
 		}
 		seen[id] = true
+		if c.Fam == "tmp" {
+			continue // scratch family of the schema-churn client; not part of the row model
+		}
 		switch id {
 		case "f1:a":
 			s.A = c.Val
@@ -452,6 +456,7 @@ func c06History(run *common.Run, idx int, engine string) {
 	var clock common.LogicalClock
 	var mu sync.Mutex
 	var ops []c06Op
+	var churnErr atomic.Value
 	// every client has a scripted list of inputs, generated up front (so the history is determined by the seed up to scheduling)
 	type scripted struct {
 		rows []int // 1 or 2 rows (MutateRows over both)
@@ -493,6 +498,53 @@ func c06History(run *common.Run, idx int, engine string) {
 				scripts[c] = append(scripts[c], scripted{rows: []int{row}, in: c06In{Kind: "READ"}})
 			}
 		}
+	}
+	// every third history runs next to a schema-churn client: it creates family "tmp", writes a tmp cell into 250
+	// filler rows (which sort before the rows under test) and into the rows under test, and drops the family again,
+	// over and over. None of this is visible in the row model; the writes of the other clients must be unaffected.
+	churnDone := make(chan struct{})
+	var churnWg sync.WaitGroup
+	if idx%3 == 1 {
+		churnWg.Add(1)
+		go func() {
+			defer churnWg.Done()
+			conn, data, admin, err := srv.NewConn()
+			if err != nil {
+				return
+			}
+			defer conn.Close()
+			tmpCell := []model.Mut{{Kind: model.SetCell, Fam: "tmp", Qual: "x", TS: 1000, Val: "scratch"}}
+			var filler []drive.Entry
+			for i := 0; i < 250; i++ {
+				filler = append(filler, drive.Entry{Key: fmt.Sprintf("a%04d", i), Muts: tmpCell})
+			}
+			for cycle := 0; cycle < 40; cycle++ {
+				select {
+				case <-churnDone:
+					return
+				default:
+				}
+				ctx, cancel := drive.Ctx()
+				_, err := admin.ModifyColumnFamilies(ctx, &btapb.ModifyColumnFamiliesRequest{Name: table, Modifications: []*btapb.ModifyColumnFamiliesRequest_Modification{{Id: "tmp", Mod: &btapb.ModifyColumnFamiliesRequest_Modification_Create{Create: &btapb.ColumnFamily{}}}}})
+				cancel()
+				if err != nil {
+					churnErr.Store("ModifyColumnFamilies(create tmp): " + err.Error())
+					return
+				}
+				drive.MutateRows(data, table, filler)
+				for _, k := range rows {
+					drive.MutateRow(data, table, k, tmpCell)
+				}
+				ctx, cancel = drive.Ctx()
+				_, err = admin.ModifyColumnFamilies(ctx, &btapb.ModifyColumnFamiliesRequest{Name: table, Modifications: []*btapb.ModifyColumnFamiliesRequest_Modification{{Id: "tmp", Mod: &btapb.ModifyColumnFamiliesRequest_Modification_Drop{Drop: true}}}})
+				cancel()
+				if err != nil {
+					churnErr.Store("ModifyColumnFamilies(drop tmp): " + err.Error())
+					return
+				}
+				run.Count("family_drops_concurrent_with_row_writes", 1)
+			}
+		}()
 	}
 	var wg sync.WaitGroup
 	for c := 0; c < nclients; c++ {
@@ -589,6 +641,12 @@ func c06History(run *common.Run, idx int, engine string) {
 		}(c)
 	}
 	wg.Wait()
+	close(churnDone)
+	churnWg.Wait()
+	if e, _ := churnErr.Load().(string); e != "" {
+		run.Violation("lin", idx, "schema-churn client: "+e, map[string]any{"engine": engine})
+		return
+	}
 	// final read of each row closes the history
 	for row := range rows {
 		call := clock.Tick()
